@@ -9,6 +9,7 @@ import (
 )
 
 type task struct {
+	group int // cooperative task group (vTasks): 0 = none
 	id    int
 	wake  chan struct{}
 	ready func() bool // nil when runnable
@@ -17,6 +18,12 @@ type task struct {
 }
 
 type sched struct {
+	// baton mode (vTasks): only tasks of the group holding the baton (and ungrouped tasks) may run;
+	// the baton moves at vYield and when a group's main function returns - exactly what the
+	// native replay's baton does
+	batonOn bool
+	baton   int
+	alive   []bool // per group (index = group-1): main function still running
 	tasks   []*task
 	cur     *task
 	aborted bool
@@ -33,7 +40,7 @@ func newSched() *sched {
 // than 'not' (nil allowed), or nil.
 func (s *sched) pick() *task {
 	for _, t := range s.tasks {
-		if t.done {
+		if t.done || !s.eligible(t) {
 			continue
 		}
 		if t.ready == nil || t.ready() {
@@ -41,6 +48,21 @@ func (s *sched) pick() *task {
 		}
 	}
 	return nil
+}
+
+func (s *sched) eligible(t *task) bool {
+	return !s.batonOn || t.group == 0 || t.group == s.baton
+}
+
+func (s *sched) nextAliveGroup(after int) int {
+	n := len(s.alive)
+	for k := 1; k <= n; k++ {
+		g := (after-1+k)%n + 1
+		if s.alive[g-1] {
+			return g
+		}
+	}
+	return 0
 }
 
 // block suspends the current task until ready() holds.
@@ -103,7 +125,7 @@ func (s *sched) yield() {
 	}
 	for k := 1; k < n; k++ {
 		x := s.tasks[(idx+k)%n]
-		if x.done {
+		if x.done || !s.eligible(x) {
 			continue
 		}
 		if x.ready == nil || x.ready() {
@@ -116,6 +138,9 @@ func (s *sched) yield() {
 // spawn creates a new task running f; it becomes runnable but does not run yet.
 func (s *sched) spawn(i *interpreter, name string, f func()) {
 	t := &task{id: len(s.tasks), wake: make(chan struct{}), name: name}
+	if s.cur != nil {
+		t.group = s.cur.group
+	}
 	s.tasks = append(s.tasks, t)
 	go func() {
 		<-t.wake
